@@ -48,13 +48,13 @@ def body_paths(fn, lp, starts):
     return out
 
 
-def exec_path(prog, fn, blocks, tracked, init=None):
+def exec_path(prog, fn, blocks, tracked, init=None, like=None):
     """reaching definitions along one path, composed into terms: env {local: term}; tracked locals start as ('loopvar', fn.key, l) (their value at the
     start of the iteration).  Returns env at the end of the path."""
     env = {l: ("loopvar", fn.key, l) for l in tracked}
     if init:
         env.update(init)
-    cx = TermCx(prog, fn)
+    cx = TermCx(prog, fn, like.argsub, like.depth, frames=like.frames) if like is not None else TermCx(prog, fn)
     cx.track_mut = False
 
     def fresh():
@@ -117,7 +117,7 @@ def loop_transfer(prog, fn, v, lp, tracked):
         facts_by_edge.setdefault(e, []).append(fa)
     out = []
     for (blocks, edges, end) in body_paths(fn, lp, starts):
-        env, cx = exec_path(prog, fn, blocks, tracked)
+        env, cx = exec_path(prog, fn, blocks, tracked, like=v.cx)
         out.append({"facts": [fa for e in edges for fa in facts_by_edge.get(e, [])], "end": end,
                     "values": {l: env[l] for l in tracked}, "blocks": blocks, "edges": edges,
                     "deref_writes": {k[1]: x for k, x in env.items() if isinstance(k, tuple) and k[0] == "deref"}, "cx": cx})
